@@ -162,6 +162,10 @@ func init() {
 			d := genDoc(newPRNG(cfg.seed))
 			pending = append(pending, Job{Prog: p, doc: d.doc, Fail: -1})
 		}
+		// a job that fails inside a loop (the failure is parked in the context): pooled
+		// contexts are handed on right after it now and then
+		failJob := Job{Prog: "for i := 0; i < 2; i++ {\nobj.Status = atoi(jso.s)\n}\n", Doc: `{"s":"abc"}`, Fail: -1}
+		failTree, _ := decoder.Parse([]byte(failJob.Prog))
 		// the concurrent phase
 		rng := newPRNG(cfg.seed + 10)
 		for pi := range pending {
@@ -203,6 +207,13 @@ func init() {
 						pooled := (g+k)%2 == 0
 						if pooled {
 							ctx = decoder.AcquireCtx()
+							if k%5 == 2 && failTree != nil {
+								fj := failJob
+								_ = decodeOnce(failTree, &fj, ctx)
+								dropUState(ctx)
+								decoder.ReleaseCtx(ctx)
+								ctx = decoder.AcquireCtx()
+							}
 						} else {
 							ctx = decoder.NewCtx()
 						}
